@@ -465,6 +465,9 @@ def h_mag2db(I, args, kw, st, n):
 
 
 def h_cuda_grid(I, args, kw, st, n):
+    nd = to_x(args[0]).as_int() if args and to_x(args[0]) is not None else None
+    if nd is not None and nd != 1:
+        return Mismatch(f"cuda.grid({nd}) is a tuple of {nd} indices, not the one-dimensional thread index the kernel is launched with")
     h = I.hooks.get("cuda_grid")
     if h: return h(I, st)
     return Opaque("cuda.grid outside a launch")
